@@ -98,10 +98,10 @@ fn run_fs(v: &[u64]) {
 // args: kind (0 IndexOptimized, 1 IndexList, 2 Vec<usize>), a0..a3 (alphabet positions), n (0..4), how (0 push, 1 extend)
 const ALPHA: [u64; 12] = [0, 1, 2, 3, 5, 6, u32::MAX as u64, u32::MAX as u64 + 1, 1 << 63, u64::MAX, 4, 8];
 fn pre_ix(v: &[u64]) -> bool {
-    v[0] < 3 && all_le(v, 1, 5, 11) && v[5] <= 4 && v[6] < 2
+    v[0] < 3 && all_le(v, 1, 5, 11) && v[5] <= 4 && v[6] < 4
 }
 fn doms_ix() -> Vec<Vec<u64>> {
-    vec![range(3), range(12), range(12), range(12), range(12), range(5), range(2)]
+    vec![range(3), range(12), range(12), range(12), range(12), range(5), range(4)]
 }
 /// The documented cost rule (README): stride-matching prefix free; then 4 bytes per entry until the first value above
 /// u32::MAX, 8 bytes per entry from there on.
@@ -150,8 +150,19 @@ fn ix_body<C: IndexContainer<usize> + Clone>(v: &[u64], compressed: bool, list: 
                 vassert!(c.index(j) == want[j], "VF:index.earlier_entry_changed");
             }
         }
-    } else {
+    } else if v[6] == 1 {
         c.extend(want.as_slice().iter().copied());
+    } else {
+        // several extend batches (what SliceRegion does: one extend per pushed slice), or a push followed by extends
+        let cut = if v[6] == 2 { want.len() / 2 } else { want.len().min(1) };
+        if v[6] == 3 && !want.is_empty() {
+            c.push(want[0]);
+        } else {
+            c.extend(want[..cut].iter().copied());
+        }
+        let mid = cut + (want.len() - cut) / 2;
+        c.extend(want[cut..mid].iter().copied());
+        c.extend(want[mid..].iter().copied());
     }
     vassert!(c.len() == want.len() && c.is_empty() == want.is_empty(), "VF:index.len");
     vassert!(c.iter().eq(want.as_slice().iter().copied()), "VF:index.iter");
@@ -229,10 +240,10 @@ fn run_dense(v: &[u64]) {
 // ---------------------------------------------------------------------------------------------------- C14 IntoOwned laws
 // args: kind (0 slice, 1 columns, 2 option, 3 result, 4 nested slice), x (value selector), t (prior target selector), rep (0 region-backed, 1 owned-borrowed)
 fn pre_io(v: &[u64]) -> bool {
-    v[0] < 5 && v[1] < 4 && v[2] < 5 && v[3] < 2
+    v[0] < 6 && v[1] < 4 && v[2] < 5 && v[3] < 2
 }
 fn doms_io() -> Vec<Vec<u64>> {
-    vec![range(5), range(4), range(5), range(2)]
+    vec![range(6), range(4), range(5), range(2)]
 }
 fn run_io(v: &[u64]) {
     let x = ITEMS[v[1] as usize];
@@ -260,6 +271,32 @@ fn run_io(v: &[u64]) {
             let j2 = r2.push(back);
             vassert!(r2.index(j) == item && r2.index(j2) == item, "VF:intoowned.slice.region_to_region");
             vassert!(r2.index(j).iter().eq(x.iter().copied()), "VF:intoowned.slice.region_to_region_value");
+            // the read item is one more input form: same indices as the canonical form on a twin in the same state
+            let mut r2c = R::default();
+            let _ = r2c.push([1u8].as_slice());
+            let jc = r2c.push(x);
+            let jc2 = r2c.push(x);
+            vassert!(j == jc && j2 == jc2, "VF:intoowned.slice.region_to_region_index");
+        }
+        5 => {
+            // region-to-region copy into a composition that relies on the inner region's dense indices
+            crate::section("VF:intoowned.cip");
+            type S = SliceRegion<MirrorRegion<u8>>;
+            type R = ConsecutiveIndexPairs<S>;
+            let mut src = S::default();
+            let _ = src.push([7u8, 7].as_slice());
+            let i = src.push(x);
+            let owned0: Vec<u8> = x.to_vec();
+            let item = if v[3] == 0 { src.index(i) } else { IntoOwned::borrow_as(&owned0) };
+            let (mut t, mut twin) = (R::default(), R::default());
+            let tail = ITEMS[v[2] as usize % 4];
+            let k0 = t.push([1u8, 2, 3].as_slice());
+            let k1 = t.push(item);
+            let k2 = t.push(tail);
+            let k3 = t.push(item);
+            let w = (twin.push([1u8, 2, 3].as_slice()), twin.push(x), twin.push(tail), twin.push(x));
+            vassert!((k0, k1, k2, k3) == w, "VF:intoowned.cip.index");
+            vassert!(t.index(k0).iter().eq([1u8, 2, 3]) && t.index(k1).iter().eq(x.iter().copied()) && t.index(k2).iter().eq(tail.iter().copied()) && t.index(k3).iter().eq(x.iter().copied()), "VF:intoowned.cip.read");
         }
         1 => {
             type R = ColumnsRegion<MirrorRegion<u8>>;
@@ -302,6 +339,7 @@ fn run_io(v: &[u64]) {
             vassert!(back == item, "VF:intoowned.result.borrow_as");
         }
         _ => {
+            crate::section("VF:intoowned.nested");
             type R = SliceRegion<SliceRegion<MirrorRegion<u8>>>;
             let val: Vec<Vec<u8>> = vec![x.to_vec(), vec![], ITEMS[(v[1] as usize + 1) % 4].to_vec()];
             let mut r = R::default();
@@ -368,11 +406,11 @@ pub fn harnesses() -> Vec<H> {
         H { name: "flatstack_sequence", props: &["C03"], nargs: 8, pre: pre_fs, doms: doms_fs, run: run_fs, panic_ok: false,
             bound: "FlatStack over SliceRegion<MirrorRegion<u8>>/Vec, ConsecutiveIndexPairs<OwnedRegion<u8>>/IndexOptimized and /IndexList: 0..4 items from a 4-value pool built by copy / extend / from_iter (exact-size, filtered and chained iterators); get, iter, cloned iterator, size_hint, into_iter, reserve, clone, clear; out-of-bounds probe", kani: false },
         H { name: "index_containers", props: &["C05", "C19", "C08", "C10", "C18", "C01", "C02", "C03"], nargs: 7, pre: pre_ix, doms: doms_ix, run: run_ix, panic_ok: false,
-            bound: "IndexOptimized, IndexList<Vec<u32>,Vec<u64>>, Vec<usize>: all sequences of length 0..4 over the 12-value transition alphabet {0,1,2,3,4,5,6,8,u32::MAX,u32::MAX+1,2^63,usize::MAX} by push or extend; index/len/iter/clone/reserve/clear/with_capacity; heap bytes equal the documented cost rule", kani: false },
+            bound: "IndexOptimized, IndexList<Vec<u32>,Vec<u64>>, Vec<usize>: all sequences of length 0..4 over the 12-value transition alphabet {0,1,2,3,4,5,6,8,u32::MAX,u32::MAX+1,2^63,usize::MAX} by push, one extend, two-three extend batches, or a push followed by extends; index/len/iter/clone/reserve/clear/with_capacity; heap bytes equal the documented cost rule", kani: false },
         H { name: "dense_indices_free", props: &["C19"], nargs: 3, pre: pre_dense, doms: doms_dense, run: run_dense, panic_ok: false,
             bound: "FlatStack<ConsecutiveIndexPairs<StringRegion>, IndexOptimized> and FlatStack<ColumnsRegion<MirrorRegion<u8>>, IndexOptimized> with 0..40 items: own index container reports 0 used bytes", kani: false },
-        H { name: "into_owned_laws", props: &["C14", "C20"], nargs: 4, pre: pre_io, doms: doms_io, run: run_io, panic_ok: false,
-            bound: "read items of SliceRegion<MirrorRegion<u8>>, ColumnsRegion<MirrorRegion<u8>>, Option<&[u8]>, Result<&[u8],&str>, SliceRegion<SliceRegion<..>>: 4 values x 5 prior clone_onto targets (empty/shorter/longer/equal/other variant) x region-backed and owned-borrowed; region-to-region push", kani: false },
+        H { name: "into_owned_laws", props: &["C14", "C20", "C12"], nargs: 4, pre: pre_io, doms: doms_io, run: run_io, panic_ok: false,
+            bound: "read items of SliceRegion<MirrorRegion<u8>>, ColumnsRegion<MirrorRegion<u8>>, Option<&[u8]>, Result<&[u8],&str>, SliceRegion<SliceRegion<..>>: 4 values x 5 prior clone_onto targets (empty/shorter/longer/equal/other variant) x region-backed and owned-borrowed; region-to-region push (indices compared with the canonical form on a twin), also into ConsecutiveIndexPairs<SliceRegion<..>> followed by further items", kani: false },
         H { name: "read_item_ordering", props: &["C15"], nargs: 11, pre: pre_cmp, doms: doms_cmp, run: run_cmp, panic_ok: false,
             bound: "SliceRegion<MirrorRegion<u8>>: triples of u8 vectors of length 0..2 (native: bytes over {0,1,255}), each side region-backed from two different regions or owned-borrowed: ==, partial_cmp, cmp equal those of the Vecs; reflexive, antisymmetric, transitive", kani: false },
     ]
